@@ -39,8 +39,14 @@ def parseSchemaDefinition (n : Nat) (description : Bytes) : Prog SchemaDef := do
   let _ ← expectKeyword kwSchema
   let pos ← peekPos
   let dirs ← parseDirectives n true
-  let ots ← pSome .braceL .braceR n parseOperationTypeDefinition
-  pure { desc := description, dirs := dirs, opTypes := ots, pos := pos }
+  -- a schema definition (unlike a schema extension) must list its root operation types
+  let t ← peek
+  if t.kind ≠ .braceL then
+    unexpectedError
+    pure { desc := description, dirs := dirs, opTypes := [], pos := pos }
+  else
+    let ots ← pSome .braceL .braceR n parseOperationTypeDefinition
+    pure { desc := description, dirs := dirs, opTypes := ots, pos := pos }
 
 /-- `parseScalarTypeDefinition` -/
 def parseScalarTypeDefinition (n : Nat) (description : Bytes) : Prog Definition := do
